@@ -104,8 +104,8 @@ gen("C03", "C03 — orders fill at most once; none is lost, duplicated or resurr
 gen("C17", "C17 — sells before buys: batch ordering and time priority. Statements only; for EVERY decision "
     "function (both exchanges) and every batch size. The sort of the buffer is an oracle argument `perm`; the "
     "theorems hold for every perm the model accepts (a permutation of the buffer whose result has every "
-    "sell-side order before every buy-side order). What is proved about the standard library's sort_by itself is "
-    "in Props/C17sort.v when present; otherwise that specification is validated by test on every run.", IMP, [
+    "sell-side order before every buy-side order). Props/C17sort.v removes the oracle: the standard library's "
+    "stable sort is modelled exactly and proved to satisfy that specification for the exchanges' comparator.", IMP, [
     ("c17_admission", "tick_spec",
      "The admitted list is the sorted buffer, numbered consecutively from the counter (after trigger children); "
      "admitted = submitted as multisets."),
@@ -117,4 +117,33 @@ gen("C17", "C17 — sells before buys: batch ordering and time priority. Stateme
      "Fills of a tick are reported in book (id) order — so the sells of any batch execute before its buys."),
     ("c17_book_sorted_always", "reachable_inv",
      "The book of every reachable state is sorted by id."),
+])
+
+
+IMPS = """From Coq Require Import ZArith NArith List Bool String Permutation Arith.
+From Alator Require Import Model.Sort Model.Exchange Proofs.SortProofs Proofs.SortExchange.
+Import ListNotations."""
+gen("C17sort", "C17, the sort itself. `order_buffer.sort_by(|a, _b| if a is sell-side {Less} else {Greater})` uses a "
+    "comparator that looks only at its first argument — not a total order, so sort_by's contract says nothing and the "
+    "result is whatever the implementation does. Model/Sort.v is a function-by-function transcription of the "
+    "implementation the installed toolchain (rustc 1.95.0) runs: insertion_sort_shift_left up to 20 elements, "
+    "driftsort above (run detection, powersort merge tree, lazy logical merges, merge up/down through the scratch "
+    "buffer, stable quicksort with median-of-3 / recursive-median pivots and the equal-partition branch, "
+    "small_sort_general with sort4_stable / bidirectional_merge, the panic on a detected order violation), generic "
+    "in the element type, the comparator and size_of::<T>() (which selects scratch size and small-sort path). It was "
+    "validated against the real binary on 32 075 inputs (lengths 0..70 densely, up to 120 000; nine comparator "
+    "kinds including inconsistent ones that make the real sort panic; seven element types) with no difference, and "
+    "every check run compares the exact admission order of every batch with it (aspect sort_exact). Statements "
+    "only; all for `is_less a _ := key a` with an arbitrary key, every element type, EVERY length. All closed under "
+    "the global context.", IMPS, [
+    ("c17s_result_is_permutation", "T1_perm", "Whatever the sort returns is a permutation of its input: the admitted set is exactly the submitted set."),
+    ("c17s_sells_first", "T2_sells_first", "Every element with key true (sell-side) precedes every element with key false (buy-side) in the result — for every length, through every path of driftsort."),
+    ("c17s_total", "T3_total", "The sort always returns: no panic on order violation, no abort, the model's fuel always suffices — for this comparator."),
+    ("c17s_closed_form_up_to_20", "T0_closed_form_le20", "Up to 20 elements (the insertion-sort path) the exact result: the sells in REVERSE submission order, then the buys in submission order — so the sort is not stable on this comparator, yet sells-first."),
+    ("c17s_index_permutation_exists", "perm_of_permutation", "A permutation is realised by an index permutation the oracle-style tick accepts."),
+    ("c17s_tick_std_refines", "tick_std_refines", "The oracle-free tick (the buffer sorted by the modelled std sort) is the oracle tick for a suitable oracle value: every theorem proved for all oracle values (C01, C03, C17, C18) applies to it."),
+    ("c17s_tick_std_never_rejects", "tick_std_no_bad_oracle", "The oracle-free tick never lands in the model's `oracle rejected` outcome: the std sort always yields an admissible order."),
+    ("c17s_run_std_refines", "run_std_refines", "Likewise for whole histories: every run of the oracle-free machine is a run of the oracle machine."),
+    ("c17s_run_std_never_rejects", "run_std_no_bad_oracle", "… and none of its outputs is `oracle rejected`."),
+    ("c17s_tick_admits_up_to_20", "tick_std_admits_le20", "For batches of at most 20 the whole tick result in closed form: admitted = sells reversed then buys, numbered consecutively after the trigger children."),
 ])
